@@ -19,6 +19,14 @@ type CheckOpts struct {
 	Only                    string // restrict to one function (debugging)
 	KeepSMT                 string // directory to keep SMT files in (debugging)
 	TimeoutS                int
+	Out                     string // where evidence/ and replays/ are written (default: Verif); used by the selftest
+}
+
+func (o CheckOpts) outDir() string {
+	if o.Out != "" {
+		return o.Out
+	}
+	return o.Verif
 }
 
 type OblResult struct {
@@ -348,9 +356,9 @@ func RunCheck(o CheckOpts) int {
 		"wall_s":      time.Since(start).Seconds(),
 		"violations":  nViol,
 	}
-	os.MkdirAll(filepath.Join(o.Verif, "evidence"), 0o755)
+	os.MkdirAll(filepath.Join(o.outDir(), "evidence"), 0o755)
 	data, _ := json.MarshalIndent(ev, "", " ")
-	os.WriteFile(filepath.Join(o.Verif, "evidence", o.Prop+".json"), data, 0o644)
+	os.WriteFile(filepath.Join(o.outDir(), "evidence", o.Prop+".json"), data, 0o644)
 	for _, r := range results {
 		if r.Kind != "cover" && r.ok && r.Ms > 4000 {
 			fmt.Printf("govc: slow obligation (%d ms, %s): %s\n", r.Ms, r.Backend, r.ID)
@@ -383,6 +391,9 @@ func contractMentions(fc *FuncContract, prop string) bool {
 	for _, l := range fc.Loops {
 		cs = append(cs, l.Invariants...)
 		cs = append(cs, l.ReturnEnsures...)
+		if l.Complete != nil {
+			cs = append(cs, *l.Complete)
+		}
 		if l.Decreases != nil {
 			cs = append(cs, *l.Decreases)
 		}
@@ -410,7 +421,7 @@ func shortFunc(f string) string {
 }
 
 func writeReplay(o CheckOpts, w *World, r *OblResult) string {
-	dir := filepath.Join(o.Verif, "replays", o.Prop)
+	dir := filepath.Join(o.outDir(), "replays", o.Prop)
 	os.MkdirAll(dir, 0o755)
 	path := filepath.Join(dir, mangle(r.ID)+".json")
 	rep := map[string]interface{}{
